@@ -88,7 +88,7 @@ fn mixed_spec(rng: &mut Rng) -> GraphSpec {
             ],
         });
     }
-    GraphSpec { files, extra_dirs: vec!["w/d".into()], bases: vec!["w".into()], fmt: Fmt::draw(rng), merge_imports: false }
+    GraphSpec { files, extra_dirs: vec!["w/d".into()], bases: vec!["w".into()], fmt: Fmt::draw(rng), merge_imports: false, raw_text: Default::default() }
 }
 
 /// root --use--> a, b (in this order); a uses m, changes m's variable and then @imports p, which also
@@ -140,7 +140,7 @@ fn mixed_import_spec(rng: &mut Rng) -> GraphSpec {
         FileSpec { path: if p_partial { "w/_p.scss".into() } else { "w/p.scss".into() }, stmts: p },
     ];
     let _ = value;
-    GraphSpec { files, extra_dirs: vec!["w/d".into()], bases: vec!["w".into()], fmt: Fmt::draw(rng), merge_imports: false }
+    GraphSpec { files, extra_dirs: vec!["w/d".into()], bases: vec!["w".into()], fmt: Fmt::draw(rng), merge_imports: false, raw_text: Default::default() }
 }
 
 fn judge_mixed_import(case: &Case, stats: &mut Stats) -> (Judgement, Option<Outcome>) {
@@ -265,6 +265,7 @@ fn plain_last_component(url: &str) -> bool {
 fn add_probes(g: &mut GraphSpec, assign_via_forward: bool, rng: &mut Rng) {
     let mut value = 100u32;
     let mut tag = 0u32;
+    let css: Vec<bool> = g.files.iter().map(|f| f.path.ends_with(".css")).collect();
     for i in 0..g.files.len() {
         // namespace variety: at most one `as *` and one default namespace per file
         let mut star_done = false;
@@ -288,10 +289,10 @@ fn add_probes(g: &mut GraphSpec, assign_via_forward: bool, rng: &mut Rng) {
         // not execute the module again (rsass ignores it there; an error would leave the run unjudged)
         for s in g.files[i].stmts.iter_mut() {
             match s {
-                Stmt::Load { kind: LoadKind::Use, ns, with_cfg, .. } if ns.is_empty() => {
+                Stmt::Load { kind: LoadKind::Use, ns, with_cfg, target, .. } if ns.is_empty() && !css[*target] => {
                     *with_cfg = rng.chance(1, 2);
                 }
-                Stmt::Load { kind: LoadKind::Forward, with_cfg, filter, .. } => {
+                Stmt::Load { kind: LoadKind::Forward, with_cfg, filter, target, .. } if !css[*target] => {
                     *with_cfg = rng.chance(1, 6);
                     // a third of the forwards filter (without hiding anything that is visible otherwise)
                     *filter = match rng.below(8) {
@@ -317,7 +318,11 @@ fn add_probes(g: &mut GraphSpec, assign_via_forward: bool, rng: &mut Rng) {
         for (ns, t) in &uses {
             let mut vis = BTreeSet::new();
             visible(g, *t, &mut vis);
-            let vis: Vec<usize> = vis.into_iter().collect();
+            // plain css modules have css but no members to read or assign
+            let vis: Vec<usize> = vis.into_iter().filter(|x| !g.files[*x].path.ends_with(".css")).collect();
+            if vis.is_empty() || g.files[*t].path.ends_with(".css") {
+                continue;
+            }
             let n = rng.range(1, 3);
             for _ in 0..n {
                 match rng.below(4) {
